@@ -1,7 +1,8 @@
 ----------------------------- MODULE Trace_C04 -----------------------------
 (* Judge for C04: consumes observations of the real derive (impl headers as read back by syn from the
    real token stream) and explains each one by the specification.  One record per derive run:
-     [id, dt, ts, verdict, impls: Seq([trait, path, byref, from, cp, err, method]), classes: Seq(STRING)] *)
+     [id, dt, ts, verdict, impls: Seq([trait, path, byref, from, cp, err, method]), classes: Seq(STRING),
+      dupgens: number of impls whose generic parameter list names a parameter twice] *)
 EXTENDS O2OImpls, TLC, Json, IOUtils
 
 Rec == ndJsonDeserialize(IOEnv.TRACE)
@@ -19,6 +20,7 @@ Symptom(r) ==
                        ELSE IF ~(faults \subseteq ToSetS(r.classes)) THEN "missing_diagnostic" ELSE "-")
   ELSE IF r.verdict = "err" THEN "rejected_valid"
   ELSE IF r.verdict # "ok" THEN r.verdict                                     \* "panic", "unparseable"
+  ELSE IF r.dupgens > 0 THEN "impl_declares_a_parameter_twice"
   ELSE IF obs = exp THEN "-"
   ELSE IF \E d \in DOMAIN exp : d \notin DOMAIN obs
             /\ \E o \in DOMAIN obs : [o EXCEPT !.err = d.err] = d THEN "wrong_error_type"
